@@ -54,6 +54,33 @@ AT_LEAST_ONCE = {"tensorly.solvers.nnls.hals_nnls"}  # range(rank) and the (lite
 FULL_ROW_SWEEP = {("tensorly.solvers.nnls.hals_nnls", "V")}  # index_update(V, index[k, :], newV) over all k replaces V
 
 
+def _named_mask(fnode, call, name):
+    """the comparison a mask name stands for at ``call``: its definition earlier in the same block, with
+    nothing in between writing the mask or anything the comparison reads"""
+    for holder in ast.walk(fnode):
+        for fld in ("body", "orelse", "finalbody"):
+            blk = getattr(holder, fld, None)
+            if not (isinstance(blk, list) and blk and isinstance(blk[0], ast.stmt)):
+                continue
+            for i, st in enumerate(blk):
+                if isinstance(st, (ast.If, ast.For, ast.While, ast.With, ast.Try, ast.FunctionDef)) or not any(x is call for x in ast.walk(st)):
+                    continue
+                written = set()
+                for prev in reversed(blk[:i]):
+                    stores = {x.id for x in ast.walk(prev) if isinstance(x, ast.Name) and isinstance(x.ctx, ast.Store)}
+                    if name.id in stores:
+                        if isinstance(prev, ast.Assign) and len(prev.targets) == 1 and isinstance(prev.targets[0], ast.Name) and isinstance(prev.value, ast.Compare):
+                            if not ({x.id for x in ast.walk(prev.value) if isinstance(x, ast.Name)} & written):
+                                return prev.value
+                        return None
+                    written |= stores
+                    for x in ast.walk(prev):  # in-place edits of what the comparison may read
+                        if isinstance(x, ast.Subscript) and isinstance(x.ctx, ast.Store) and isinstance(x.value, ast.Name):
+                            written.add(x.value.id)
+                return None
+    return None
+
+
 class Sign(Domain):
     name = "sign"
 
@@ -185,6 +212,8 @@ class Sign(Domain):
         if last == "where" and len(args) == 3:
             c = node.args[0] if isinstance(node, ast.Call) and len(node.args) == 3 else None
             a, b = args[1], args[2]
+            if isinstance(c, ast.Name) and it.stack:
+                c = _named_mask(it.stack[-1].f.node, node, c) or c  # too_small = x < c; where(too_small, c, x)
             # where(x < c, c, x) with c >= 0
             if isinstance(c, ast.Compare) and len(c.ops) == 1 and isinstance(c.ops[0], (ast.Lt, ast.LtE)) and src(c.left) == src(node.args[2]) and src(c.comparators[0]) == src(node.args[1]) and self._nn(a, it) and it.datum(a)[0] == NNL:
                 self._sanitised(node)
